@@ -73,6 +73,178 @@ Section NoRealloc.
   Qed.
 End NoRealloc.
 
+(** * the flag stays what it is through a whole [print_value] call *)
+Section KeepsFlag.
+  Variable fmt_d : Z -> bytes.
+  Variable fmt_g15 fmt_g17 : Dbl.dbl -> bytes.
+  Variable sscanf_lg : bytes -> option Dbl.dbl.
+  Variable oracle : nat -> bool.
+  Variable junk : nat -> Z.
+
+  (** [m] returns a buffer whose flag is [f0] *)
+  Definition keepsR (m : res (bool * printbuffer)) (f0 : bool) : Prop :=
+    forall b p', m = Ok (b, p') -> pb_realloc p' = f0.
+  Definition keepsP (m : res printbuffer) (f0 : bool) : Prop :=
+    forall p', m = Ok p' -> pb_realloc p' = f0.
+
+  Lemma keepsR_ok b p f0 : pb_realloc p = f0 -> keepsR (Ok (b, p)) f0.
+  Proof. intros H b' p' E. inversion E; congruence. Qed.
+  Lemma keepsR_bindR m (k : bool * printbuffer -> res (bool * printbuffer)) f0 :
+    keepsR m f0 -> (forall b p, pb_realloc p = f0 -> keepsR (k (b, p)) f0) -> keepsR (bind m k) f0.
+  Proof.
+    intros Hm Hk b p' E. destruct m as [[b1 p1]| |]; cbn in E; try discriminate.
+    eapply Hk; [|exact E]. eapply Hm. reflexivity.
+  Qed.
+  Lemma keepsR_bindP m (k : printbuffer -> res (bool * printbuffer)) f0 :
+    keepsP m f0 -> (forall p, pb_realloc p = f0 -> keepsR (k p) f0) -> keepsR (bind m k) f0.
+  Proof.
+    intros Hm Hk b p' E. destruct m as [p1| |]; cbn in E; try discriminate.
+    eapply Hk; [|exact E]. eapply Hm. reflexivity.
+  Qed.
+  Lemma keepsR_bindA {A} (m : res A) (k : A -> res (bool * printbuffer)) f0 :
+    (forall a, keepsR (k a) f0) -> keepsR (bind m k) f0.
+  Proof. intros Hk b p' E. destruct m as [a| |]; cbn in E; try discriminate. eapply Hk; exact E. Qed.
+  Lemma keepsR_oob f0 : keepsR OOB f0.
+  Proof. intros b p' E. discriminate. Qed.
+
+  Lemma keeps_ensure p n f0 : pb_realloc p = f0 -> keepsR (ensure oracle junk p n) f0.
+  Proof. intros H b p' E. apply ensure_keeps_flag in E. congruence. Qed.
+  Lemma keeps_put p i l f0 : pb_realloc p = f0 -> keepsP (put p i l) f0.
+  Proof.
+    intros H p' E. unfold put in E. destruct (pb_buf p) as [buf|]; [|discriminate].
+    destruct (wr_bytes buf (pb_offset p + i) l) as [b'| |]; cbn in E; inversion E; subst p'; cbn; exact H.
+  Qed.
+  Lemma keeps_update_offset p f0 : pb_realloc p = f0 -> keepsP (update_offset p) f0.
+  Proof.
+    intros H p' E. unfold update_offset in E. destruct (pb_buf p) as [buf|]; [|inversion E; congruence].
+    destruct (strlen_at buf (pb_offset p)) as [k| |]; cbn in E; inversion E; subst p'; cbn; exact H.
+  Qed.
+
+  Ltac kf1 :=
+    lazymatch goal with
+    | |- keepsR (Ok (_, _)) _ => apply keepsR_ok; cbn; assumption
+    | |- keepsR OOB _ => apply keepsR_oob
+    | |- keepsR (bind (ensure _ _ _ _) _) _ => apply keepsR_bindR; [apply keeps_ensure; cbn; assumption|intros ? ? ?]
+    | |- keepsR (bind (put _ _ _) _) _ => apply keepsR_bindP; [apply keeps_put; cbn; assumption|intros ? ?]
+    | |- keepsR (bind (update_offset _) _) _ => apply keepsR_bindP; [apply keeps_update_offset; cbn; assumption|intros ? ?]
+    | |- keepsR (match ?x with _ => _ end) _ => destruct x
+    end.
+  Ltac kf := repeat kf1.
+
+  Lemma keeps_print_literal p n lit f0 : pb_realloc p = f0 -> keepsR (print_literal oracle junk p n lit) f0.
+  Proof. intros H. unfold print_literal. kf. Qed.
+  Lemma keeps_print_number vi d p f0 :
+    pb_realloc p = f0 -> keepsR (print_number fmt_d fmt_g15 fmt_g17 sscanf_lg oracle junk vi d p) f0.
+  Proof. intros H. unfold print_number. apply keepsR_bindA. intros txt. cbv zeta. kf. Qed.
+  Lemma keeps_print_string_ptr input p f0 :
+    pb_realloc p = f0 -> keepsR (print_string_ptr oracle junk input p) f0.
+  Proof.
+    intros H. unfold print_string_ptr. destruct input as [s0|]; cbv zeta; kf.
+    apply keepsR_bindA. intros [buf' z]. kf.
+  Qed.
+
+  Section Loops.
+    Variable pv : Tree.node -> printbuffer -> res (bool * printbuffer).
+
+    Lemma keeps_print_array_elements l f0 :
+      Forall (fun n => forall p, pb_realloc p = f0 -> keepsR (pv n p) f0) l ->
+      forall p, pb_realloc p = f0 -> keepsR (print_array_elements oracle junk pv l p) f0.
+    Proof.
+      induction 1 as [|n l Hn Hl IH]; intros p H; cbn [print_array_elements].
+      - kf.
+      - apply keepsR_bindR; [apply Hn; exact H|]. intros ok p1 H1.
+        repeat first [progress kf | progress cbv zeta]; apply IH; cbn; assumption.
+    Qed.
+    Lemma keeps_print_array l f0 :
+      Forall (fun n => forall p, pb_realloc p = f0 -> keepsR (pv n p) f0) l ->
+      forall p, pb_realloc p = f0 -> keepsR (print_array oracle junk pv l p) f0.
+    Proof.
+      intros Hl p H. unfold print_array. kf. cbv zeta.
+      apply keepsR_bindR; [apply keeps_print_array_elements; [exact Hl|cbn; assumption]|].
+      intros ok p4 H4. kf.
+    Qed.
+    Lemma keeps_print_object_members l f0 :
+      Forall (fun n => forall p, pb_realloc p = f0 -> keepsR (pv n p) f0) l ->
+      forall p, pb_realloc p = f0 -> keepsR (print_object_members oracle junk pv l p) f0.
+    Proof.
+      induction 1 as [|n l Hn Hl IH]; intros p H; cbn [print_object_members].
+      - kf.
+      - apply keepsR_bindR.
+        + kf.
+        + intros ok p3 H3. kf.
+          apply keepsR_bindR; [apply keeps_print_string_ptr; exact H3|]. intros ok4 p4 H4.
+          repeat first [progress kf | progress cbv zeta].
+          apply keepsR_bindR; [apply Hn; cbn; assumption|]. intros ok9 p9 H9.
+          repeat first [progress kf | progress cbv zeta]; apply IH; cbn; assumption.
+    Qed.
+    Lemma keeps_print_object l f0 :
+      Forall (fun n => forall p, pb_realloc p = f0 -> keepsR (pv n p) f0) l ->
+      forall p, pb_realloc p = f0 -> keepsR (print_object oracle junk pv l p) f0.
+    Proof.
+      intros Hl p H. unfold print_object. cbv zeta. kf.
+      apply keepsR_bindR; [apply keeps_print_object_members; [exact Hl|cbn; assumption]|].
+      intros ok p4 H4. kf.
+    Qed.
+  End Loops.
+
+  Lemma keeps_print_value n : forall f0 p, pb_realloc p = f0 ->
+    keepsR (print_value fmt_d fmt_g15 fmt_g17 sscanf_lg oracle junk n p) f0.
+  Proof.
+    induction n as [ty vs vi vd key ch IH] using Tree.node_ind'; intros f0 p H.
+    cbn [print_value]. cbv zeta.
+    destruct (Tree.tymask ty =? c_cJSON_NULL); [apply keeps_print_literal; exact H|].
+    destruct (Tree.tymask ty =? c_cJSON_False); [apply keeps_print_literal; exact H|].
+    destruct (Tree.tymask ty =? c_cJSON_True); [apply keeps_print_literal; exact H|].
+    destruct (Tree.tymask ty =? c_cJSON_Number); [apply keeps_print_number; exact H|].
+    destruct (Tree.tymask ty =? c_cJSON_Raw); [destruct vs as [s0|]; kf|].
+    destruct (Tree.tymask ty =? c_cJSON_String); [apply keeps_print_string_ptr; exact H|].
+    assert (Hch : Forall (fun n => forall p, pb_realloc p = f0 ->
+                    keepsR (print_value fmt_d fmt_g15 fmt_g17 sscanf_lg oracle junk n p) f0) ch).
+    { eapply Forall_impl; [|exact IH]. intros n Hn q Hq. apply Hn. exact Hq. }
+    destruct (Tree.tymask ty =? c_cJSON_Array); [apply keeps_print_array; assumption|].
+    destruct (Tree.tymask ty =? c_cJSON_Object); [apply keeps_print_object; assumption|].
+    kf.
+  Qed.
+
+  (** the statement: a [print_value] call that returns leaves the flag as it found it, so with
+      the flag off every [ensure] inside it is [ensure_manual] *)
+  Lemma print_value_keeps_flag n p b p' :
+    print_value fmt_d fmt_g15 fmt_g17 sscanf_lg oracle junk n p = Ok (b, p') -> pb_realloc p' = pb_realloc p.
+  Proof. intros E. eapply keeps_print_value; [reflexivity|exact E]. Qed.
+
+  (** [print] (the body of cJSON_Print / cJSON_PrintUnformatted) with [hooks->reallocate == NULL]:
+      the buffer starts with the flag off (so, by the lemmas above, it stays off and every
+      [ensure] is [ensure_manual]) and the final trim is allocate + memcpy + deallocate; the
+      text below does not mention [reallocate] *)
+  Definition print_manual (item : Tree.node) (format : bool) : res print_result :=
+    let p0 := mkpb None 0 0 0 false format false 0 0 in
+    let '(b, p1) := allocate oracle junk p0 c_DEFAULT_BUFFER_SIZE in
+    let p2 := set_length (set_buf p1 b) c_DEFAULT_BUFFER_SIZE in
+    match b with
+    | None => Ok (result_of None p2)
+    | Some _ =>
+        '(ok, p3) <- print_value fmt_d fmt_g15 fmt_g17 sscanf_lg oracle junk item p2 ;;
+        if negb ok then Ok (result_of None (deallocate p3 (pb_buf p3)))
+        else
+          p4 <- update_offset p3 ;;
+          match pb_buf p4 with
+          | None => OOB
+          | Some buf =>
+              let '(printed, p5) := allocate oracle junk p4 (pb_offset p4 + 1) in
+              match printed with
+              | None => Ok (result_of None (deallocate p5 (Some buf)))
+              | Some pr =>
+                  pr1 <- memcpy0 pr buf (Z.min (pb_length p5) (pb_offset p5 + 1)) ;;
+                  pr2 <- wrz pr1 (pb_offset p5) 0 ;;
+                  Ok (result_of (Some pr2) (deallocate p5 (Some buf)))
+              end
+          end
+    end.
+  Lemma print_no_realloc item format :
+    print fmt_d fmt_g15 fmt_g17 sscanf_lg oracle junk item format false = print_manual item format.
+  Proof. reflexivity. Qed.
+End KeepsFlag.
+
 (** [pb_realloc] is [hooks_realloc_available]: false as soon as one member is custom *)
 Lemma realloc_unavailable hk :
   hk_malloc_custom hk = true \/ hk_free_custom hk = true -> hooks_realloc_available hk = false.
